@@ -18,6 +18,9 @@ func main() {
 	if len(os.Args) > 1 && os.Args[1] == "explain" {
 		os.Exit(explain(os.Args[2:]))
 	}
+	if len(os.Args) > 4 && os.Args[1] == "classes" {
+		os.Exit(debugClasses(os.Args[2], os.Args[3:]))
+	}
 	if len(os.Args) > 4 && os.Args[1] == "fields" {
 		os.Exit(debugFields(os.Args[2], os.Args[3], os.Args[4]))
 	}
